@@ -438,6 +438,8 @@ mutual
     | ret (e : PE)
     /-- `break;` -/
     | brk
+    /-- `debugger;` -/
+    | dbg
   inductive PStmts where
     | nil
     | cons (s : PS) (rest : PStmts)
@@ -592,6 +594,9 @@ mutual
       match eatId b!"break" ts with
       | some r => (match eat b!";" r with | some r1 => some (.brk, r1) | none => none)
       | none =>
+      match eatId b!"debugger" ts with
+      | some r => (match eat b!";" r with | some r1 => some (.dbg, r1) | none => none)
+      | none =>
         -- ExpressionStatement (it cannot begin with `{`; `function` and the other keywords are no expressions)
         (match exprP ts with
           | some (e, r) => (match eat b!";" r with | some r1 => some (.expr e, r1) | none => none)
@@ -736,6 +741,7 @@ open SoyVerif.Spec.JsSemRef (JsExpr Fn1 Fn2)
 open SoyVerif.Spec.JsSem (JsOp)
 
 def sOptData : Bytes := b!"opt_data"
+def sOptIj : Bytes := b!"opt_ijData"
 def sLength : Bytes := b!"length"
 def sMath : Bytes := b!"Math"
 
@@ -751,23 +757,25 @@ def mathFn1 (f : Bytes) : Option Fn1 :=
 def mathFn2 (f : Bytes) : Option Fn2 :=
   if f == b!"min" then some .min else if f == b!"max" then some .max else none
 
+/-- the parameter `opt_data` -/
+def isOptData : PE → Bool
+  | .ident g => g == sOptData
+  | _ => false
+
 /-- `JsExpr` of a tree (the concrete syntax of Spec/JsSemRef, read backwards) -/
 def readE : PE → Option JsExpr
   | .null => some .null
   | .bool b => some (.bool b)
   | .num v => some (.num (v : Int))
   | .str v => some (.str v)
-  | .ident g => if g == sOptData then none else some (.local g)
+  | .ident g => if g == sOptData then none else if g == sOptIj then some .ijData else some (.local g)
   | .member x k =>
     -- `opt_data.k`; `x.length`; `x.k`
-    (match x with
-      | .ident g =>
-        if g == sOptData then some (.optData k)
-        else if k == sLength then some (.call1 .length (.local g)) else some (.member (.local g) k)
-      | x =>
-        (match readE x with
-          | some jx => if k == sLength then some (.call1 .length jx) else some (.member jx k)
-          | none => none))
+    if isOptData x then some (.optData k)
+    else
+      (match readE x with
+        | some jx => if k == sLength then some (.call1 .length jx) else some (.member jx k)
+        | none => none)
   | .index x (.num i) => (match readE x with | some jx => some (.index jx (i : Int)) | none => none)
   | .call (.member (.ident m) f) (.cons a .nil) =>
     -- `Math.floor(a)`
@@ -820,7 +828,7 @@ def readE : PE → Option JsExpr
 /-! ## 4. reading statements as `JsStmt` (the concrete syntax of Spec/JsStmt, read backwards) -/
 
 open SoyVerif.Model (Directive Expr)
-open SoyVerif.Spec.JsStmt (JsStmt JsStmts JsConds JsCases DataBase JsFunc)
+open SoyVerif.Spec.JsStmt (JsStmt JsStmts JsConds JsCases JsPlural DataBase JsFunc)
 
 /-- the dotted name `a.b.c` a chain of `.name` spells -/
 def qnameOf : PE → Option Bytes
@@ -877,8 +885,7 @@ def readProps : PProps → Option (List (Bytes × JsExpr))
 /-- `{}`, `opt_data`, an expression -/
 def readBase : PE → Option DataBase
   | .obj .nil => some .empty
-  | .ident g => if g == sOptData then some .all else some (.expr (.local g))
-  | x => (match readE x with | some e => some (.expr e) | none => none)
+  | x => if isOptData x then some .all else (match readE x with | some e => some (.expr e) | none => none)
 
 def sAugment : Bytes := b!"soy.$$augmentMap"
 
@@ -895,6 +902,9 @@ def readData : PE → Option (DataBase × List (Bytes × JsExpr))
 /-- the right-hand side of `buf += …;` -/
 def readAppend (buf : Bytes) : PE → Option JsStmt
   | .str t => some (.appendLit buf t)
+  | .bin .add x (.str t) =>
+    -- `buf += e + '-';`
+    if t == b!"-" then (match readE x with | some e => some (.appendCss buf e) | none => none) else none
   | .call f (.cons d (.cons (.ident a1) (.cons (.ident a2) .nil))) =>
     if a1 == b!"opt_sb" && a2 == b!"opt_ijData" then
       (match qnameOf f, readData d with
@@ -910,7 +920,7 @@ def readAppend (buf : Bytes) : PE → Option JsStmt
 def readVar (x : Bytes) : PE → Option JsStmt
   | .str [] => some (.varEmpty x)
   | .member (.ident l) k =>
-    if k == sLength && l != sOptData then some (.varLength x l)
+    if k == sLength && l != sOptData && l != sOptIj then some (.varLength x l)
     else (match readE (.member (.ident l) k) with | some e => some (.var x e) | none => none)
   | .index (.ident l) (.ident i) => some (.varIndex x l i)
   | e => (match readE e with | some j => some (.var x j) | none => none)
@@ -923,6 +933,8 @@ mutual
       (match readSs body, readSs els with
         | some b, some e => some (.ifPos lim b e)
         | _, _ => none)
+    | .ifS (.bin .eq (.ident idx) (.num n)) (.block body) =>
+      if n == 0 then (match readSs body with | some b => some (.ifZero idx b) | none => none) else none
     | .ifS c (.block body) =>
       (match readE c, readSs body with
         | some jc, some b => some (.ifs (.cons jc b .nil))
@@ -931,6 +943,7 @@ mutual
       (match readE c, readSs body, readElse e with
         | some jc, some b, some r => some (.ifs (.cons jc b r))
         | _, _, _ => none)
+    | .dbg => some .debuggerS
     | .forVar [(i, .num 0)] (.bin .lt (.ident i1) (.ident lim)) [.postInc (.ident i2)] (.block body) =>
       if i1 == i && i2 == i then (match readSs body with | some b => some (.forUp i lim b) | none => none) else none
     | .forVar [(i, init), (idx, .num 0)] (.bin .lt (.ident i1) (.ident lim))
@@ -941,9 +954,16 @@ mutual
           | _, _ => none)
       else none
     | .switchS e cs =>
-      (match readE e, readCases cs with
-        | some je, some jc => some (.switchS je jc)
-        | _, _ => none)
+      (match readE e with
+        | none => none
+        | some je =>
+          match readCases cs with
+          | some jc => some (.switchS je jc)
+          | none =>
+            -- the `default:` clause is not closed by `break;`: a plural switch
+            match readPlural cs with
+            | some (pc, d) => some (.pluralS je pc d)
+            | none => none)
     | _ => none
   def readSs : PStmts → Option JsStmts
     | .nil => some .nil
@@ -971,6 +991,14 @@ mutual
       match readS s, readBrk r with
       | some js, some jr => some (.cons js jr)
       | _, _ => none
+  /-- `case n: … break;` with integer labels, then `default: …` (not closed by `break;`) as the last clause -/
+  def readPlural : PClauses → Option (JsPlural × JsStmts)
+    | .dflt body .nil => (match readSs body with | some d => some (.nil, d) | none => none)
+    | .case l body rest =>
+      (match readE l, readBrk body, readPlural rest with
+        | some (.num v), some b, some (pc, d) => some (.cons v b pc, d)
+        | _, _, _ => none)
+    | _ => none
   /-- `case l1: case l2: … break;` is one clause with the labels l1, l2; `default:` is the last clause -/
   def readCases : PClauses → Option JsCases
     | .nil => some .nil
